@@ -128,6 +128,8 @@ type decision struct {
 
 // Engine executes one job.
 type Engine struct {
+	feasRetries, verdictRetries int // patient solver retries used by this job (capped)
+
 	P      *Program
 	st     *Store
 	job    *Job
@@ -499,8 +501,10 @@ func (e *Engine) feasible(c *Term) bool {
 			others = []string{"z3-new", "z3"}
 		}
 		r2, m2, _, _ := Portfolio(script, e.job.FeasTimeout, e.stats, "feasibility-portfolio", others, false)
-		if r2 == Unknown {
-			// a loaded machine makes short wall-clock timeouts meaningless: one patient retry with every back end
+		if r2 == Unknown && e.feasRetries < 5 {
+			// a loaded machine makes short wall-clock timeouts meaningless: a patient retry with every back end
+			// (a few per job only: a change that makes the queries genuinely hard must not stall the check)
+			e.feasRetries++
 			r2, m2, _, _ = Portfolio(script, 6*e.job.FeasTimeout, e.stats, "feasibility-portfolio-retry", []string{"z3", "z3-new", "cvc5", "cvc5-int"}, false)
 		}
 		switch r2 {
@@ -707,9 +711,10 @@ func (e *Engine) verdict(extra *Term, kind string) (Result, map[string]uint64, s
 		names := []string{"z3-new", "z3", "cvc5", "cvc5-int"}
 		var disagree bool
 		r, m, backend, disagree = Portfolio(script, e.job.VerdictTimeout, e.stats, kind+"-portfolio", names, false)
-		if r == Unknown {
-			// one patient retry: wall-clock timeouts say little on a loaded machine
-			r, m, backend, disagree = Portfolio(script, 4*e.job.VerdictTimeout, e.stats, kind+"-portfolio-retry", names, false)
+		if r == Unknown && e.verdictRetries < 2 {
+			// a patient retry (at most two per job): wall-clock timeouts say little on a loaded machine
+			e.verdictRetries++
+			r, m, backend, disagree = Portfolio(script, 2*e.job.VerdictTimeout, e.stats, kind+"-portfolio-retry", names, false)
 		}
 		_ = disagree
 	} else if cross {
